@@ -28,4 +28,5 @@ let () = each_line (fun l ->
       (if e = is_lang_empty a then [] else ["empty"]) ] in
     (if fails = [] then "OK" else "FAIL " ^ String.concat "," fails)
     ^ (if drift = [] then "" else " DRIFT " ^ String.concat "," drift)
-    ^ (if is_empty a then " empty" else " nonempty"))
+    ^ (if is_empty a then " empty" else " nonempty")
+    ^ (if ta_same a (remove_useless a) then "" else " dead"))
